@@ -234,6 +234,9 @@ func (u *upstream) getClient(addr string) (*client, error) {
 	c, err := u.createClient(addr)
 	call.res, call.err = c, err
 	close(call.done)
+	// the entry only shares one attempt between concurrent callers: a later
+	// caller finds the client in the table, or makes an attempt of its own.
+	u.createClientCalls.Delete(addr)
 	return c, err
 }
 
